@@ -86,7 +86,8 @@ EXTENDS ChainSyncProps, SequencesExt, FiniteSetsExt, Bags
 
 CONSTANTS K, T,
           Lists,      \* every identity list a decryption trigger of the explored universes can carry (Gossip calls them rounds)
-          SortMode    \* "asfound" | "sorted" (named alternative, PRIMEV-1)
+          SortMode,   \* "asfound" | "sorted" (named alternative, PRIMEV-1)
+          RegMode     \* "asfound" | "repaired" (named alternative of the registry syncer, PRIMEV-2)
 
 G == INSTANCE Gossip WITH N <- K, Rounds <- Lists, Flavour <- "core"
 
@@ -241,7 +242,9 @@ NetDeliver(nd, j, m) ==
 (* ProviderRegistrySyncer.  st = [synced, stored] as in ChainSync; a stored row is [key, num, bid]
    with key = the provider token.  A block carries at most one event, so the primary key
    (block_number, tx_index, log_index) is the block number. *)
-PCfg == [d |-> 10, maxr |-> 10000, start0 |-> 0, errm |-> "logged", reorg |-> "next"]
+PCfg == [d |-> 10, maxr |-> 10000, start0 |-> 0,
+         errm |-> IF RegMode = "repaired" THEN "returned" ELSE "logged",
+         reorg |-> IF RegMode = "repaired" THEN "gap" ELSE "next"]
 
 (* InsertProviderRegistryEvent ... ON CONFLICT (block_number, tx_index, log_index) DO UPDATE SET
    block_number, block_hash, tx_index, log_index, bls_keys: provider_address of an existing row stays *)
@@ -268,13 +271,14 @@ PRunRanges(blk, h, st, rs, i, f) ==
                  LET rest == PRunRanges(blk, h, s, rs, i + 1, f) IN
                  [seq |-> (IF committed THEN <<s>> ELSE <<>>) \o rest.seq, ret |-> rest.ret]
          IN CASE hit /\ f.k = "rpc" -> [seq |-> <<>>, ret |-> "err"]
-              [] hit /\ f.k = "db"  -> goOn(st, FALSE)          \* log.Warn, return nil
+              [] hit /\ f.k = "db"  -> IF PCfg.errm = "returned" THEN [seq |-> <<>>, ret |-> "err"]
+                                       ELSE goOn(st, FALSE)     \* as found: log.Warn, return nil
               [] OTHER              -> goOn(st2, TRUE)
 
 (* Sync: [seq (committed states), ret] *)
 PRun(blk, h, st, f) ==
     LET sy   == st.synced
-        n    == IF sy.has THEN NumReorged(PCfg, blk, h, sy) ELSE 0
+        n    == IF sy.has THEN NumReorged(PCfg, blk, CheckBlock(PCfg, blk, h, sy), sy) ELSE 0
         st1  == IF n > 0 THEN RollbackTo(st, sy.num - n) ELSE st
         seq1 == IF n > 0 THEN <<st1>> ELSE <<>>
     IN IF f.at = 0 /\ f.k \in {"rpc", "db"} THEN [seq |-> <<>>, ret |-> "err"]
@@ -285,7 +289,7 @@ PRun(blk, h, st, f) ==
 
 PNRanges(blk, h, st) ==
     LET sy == st.synced
-        n  == IF sy.has THEN NumReorged(PCfg, blk, h, sy) ELSE 0
+        n  == IF sy.has THEN NumReorged(PCfg, blk, CheckBlock(PCfg, blk, h, sy), sy) ELSE 0
         s1 == IF n > 0 THEN sy.num - n + 1 ELSE IF sy.has THEN sy.num + 1 ELSE PCfg.start0
     IN Len(Ranges(s1, NumOf(blk, h), PCfg.maxr))
 
